@@ -195,6 +195,7 @@ func c19Emit(fs *Facts) {
 		fs.Tri("oldIsLive", Unknown, c19Swamp)
 		fs.Tri("eventTimeFromClock", Unknown, c19Swamp)
 		c19SubscribersAfterStore(fs)
+		fs.Tri("stopsSendingAfterDrain", Unknown, c19Swamp)
 		return
 	}
 	save := f.Func("swamp", "SaveFunction")
@@ -207,6 +208,7 @@ func c19Emit(fs *Facts) {
 		fs.Tri("oldIsLive", Unknown, c19Swamp)
 		fs.Tri("eventTimeFromClock", Unknown, c19Swamp)
 		c19SubscribersAfterStore(fs)
+		fs.Tri("stopsSendingAfterDrain", Unknown, c19Swamp)
 		return
 	}
 	// ---- emittedUnderGuard: per top-level branch of SaveFunction
@@ -315,6 +317,21 @@ func c19Emit(fs *Facts) {
 
 	// ---- eventTimeFromClock: every Event{…} literal takes EventTime from time.Now()
 	et, etWhere, seen := Yes, c19Swamp, 0
+	// simple local definitions (name := expr / name = expr); a name that is assigned from the record's metadata
+	// anywhere counts as such
+	localDefs := map[string]string{}
+	ast.Inspect(f.AST, func(x ast.Node) bool {
+		if as, ok := x.(*ast.AssignStmt); ok && len(as.Lhs) == 1 && len(as.Rhs) == 1 {
+			if id, ok := as.Lhs[0].(*ast.Ident); ok {
+				src := f.Str(as.Rhs[0])
+				if prev, had := localDefs[id.Name]; had && (strings.Contains(prev, "GetCreatedAt()") || strings.Contains(prev, "GetModifiedAt()")) {
+					return true
+				}
+				localDefs[id.Name] = src
+			}
+		}
+		return true
+	})
 	ast.Inspect(f.AST, func(x ast.Node) bool {
 		cl, ok := x.(*ast.CompositeLit)
 		if !ok || f.Str(cl.Type) != "Event" {
@@ -326,8 +343,21 @@ func c19Emit(fs *Facts) {
 				continue
 			}
 			seen++
-			if !strings.Contains(f.Str(kv.Value), "time.Now()") {
+			val := f.Str(kv.Value)
+			if id, isId := kv.Value.(*ast.Ident); isId {
+				// one level of local assignment: `now := time.Now()…; EventTime: now`
+				if src, ok := localDefs[id.Name]; ok {
+					val = src
+				}
+			}
+			switch {
+			case strings.Contains(val, "time.Now()"):
+			case strings.Contains(val, "GetCreatedAt()") || strings.Contains(val, "GetModifiedAt()") || strings.Contains(val, "GetExpirationTime()"):
 				et, etWhere = No, c19Swamp+":"+itoa(f.Line(kv))
+			default:
+				if et == Yes {
+					et, etWhere = Unknown, c19Swamp+":"+itoa(f.Line(kv))
+				}
 			}
 		}
 		return true
@@ -337,6 +367,7 @@ func c19Emit(fs *Facts) {
 	}
 	fs.Tri("eventTimeFromClock", et, etWhere)
 	c19SubscribersAfterStore(fs)
+	c19StopAfterDrain(fs, f)
 }
 
 func c19Flags(fs *Facts) {
@@ -479,4 +510,37 @@ func c19SubscribersAfterStore(fs *Facts) {
 		}
 	}
 	fs.Tri(name, Yes, path+":"+itoa(h.Line(looks[0])))
+}
+
+// stopsSendingAfterDrain: in the function that drains the vigils and destroys the swamp, StopSendingEvents comes
+// after WaitForActiveVigilsClosed (and after the branch that closes a non-empty swamp instead)
+func c19StopAfterDrain(fs *Facts, f *File) {
+	const name = "stopsSendingAfterDrain"
+	if _, done := fs.Lean[name]; done {
+		return
+	}
+	var body *ast.FuncDecl
+	for _, d := range f.AST.Decls {
+		if fd, ok := d.(*ast.FuncDecl); ok && fd.Body != nil && len(f.CallsSuffix(fd, ".WaitForActiveVigilsClosed")) == 1 &&
+			len(f.CallsSuffix(fd, ".chroniclerInterface.Destroy")) == 1 {
+			body = fd
+		}
+	}
+	if body == nil {
+		fs.Tri(name, Unknown, c19Swamp)
+		return
+	}
+	wait := f.CallsSuffix(body, ".WaitForActiveVigilsClosed")[0]
+	stops := f.CallsSuffix(body, ".StopSendingEvents")
+	if len(stops) == 0 {
+		fs.Tri(name, Unknown, c19Swamp+":"+itoa(f.Line(body)))
+		return
+	}
+	for _, st := range stops {
+		if st.Pos() < wait.Pos() {
+			fs.Tri(name, No, c19Swamp+":"+itoa(f.Line(st)))
+			return
+		}
+	}
+	fs.Tri(name, Yes, c19Swamp+":"+itoa(f.Line(stops[0])))
 }
